@@ -28,6 +28,7 @@ type SpecEnv struct {
 	loopIdxKey string
 	visitedKey string
 	loopVar    types.Object
+	loopEntry  *State // state on entry to the innermost loop under specification (for atLoop)
 	frameFn    *FuncInfo // for resolving locals by name
 	frameLit   ast.Node
 	noLocals   bool
@@ -950,6 +951,13 @@ func (x *Exec) specCall(c *ast.CallExpr, env *SpecEnv) TV {
 		}
 		n := *env
 		n.st = env.old
+		return x.specValue(c.Args[0], &n)
+	case "atLoop":
+		if env.loopEntry == nil {
+			panic("spec: atLoop() outside a loop invariant: " + exprStr(c))
+		}
+		n := *env
+		n.st = env.loopEntry
 		return x.specValue(c.Args[0], &n)
 	case "__imp":
 		return TV{V: tImp(x.specTerm(c.Args[0], env), x.specTerm(c.Args[1], env)), T: boolT}
